@@ -9,16 +9,16 @@ def sortStrs (l : List String) : List String := (l.toArray.qsort (· < ·)).toLi
 
 def showWill : Option Will → String
   | none => "-"
-  | some w => s!"{w.topic}:{if w.payload = "" then "-" else w.payload}:{w.qos}:{if w.retain then 1 else 0}"
+  | some w => s!"{Driver.safe w.topic}:{if w.payload = "" then "-" else w.payload}:{w.qos}:{if w.retain then 1 else 0}"
 
 def showS (s : SessionMD) (stamps : Bool) : String :=
-  let base := s!"S,{s.id},{s.client},{s.mount},{s.peer},{showWill s.lwt}"
+  let base := s!"S,{Driver.safe s.id},{Driver.safe s.client},{Driver.safe s.mount},{s.peer},{showWill s.lwt}"
   if stamps then base ++ s!",{s.added},{s.deleted}" else base
 def showU (s : Sub) (stamps : Bool) : String :=
-  let base := s!"U,{s.session},{s.pattern},{s.peer},{s.qos}"
+  let base := s!"U,{Driver.safe s.session},{Driver.safe s.pattern},{s.peer},{s.qos}"
   if stamps then base ++ s!",{s.added},{s.deleted}" else base
 def showR (r : Retained) (stamps : Bool) : String :=
-  let base := if r.hasPublish then s!"R,{r.topic},{if r.payload = "" then "-" else r.payload},{r.qos},{if r.retain then 1 else 0}" else "R!"
+  let base := if r.hasPublish then s!"R,{Driver.safe r.topic},{if r.payload = "" then "-" else r.payload},{r.qos},{if r.retain then 1 else 0}" else "R!"
   if stamps then base ++ s!",{r.added},{r.deleted}" else base
 
 def showList (l : List String) : String := "[" ++ " ".intercalate (sortStrs l) ++ "]"
